@@ -120,6 +120,29 @@ theorem valid_word_kind (c : Char) (m : List Char) (hc : isWordStart c = true)
       subst h2; exact absurd hc (by decide)
   · rintro rfl; exact .word c m hc hm
 
+/-- an identifier spelling is valid iff its upper-cased form is not a key of the keyword table
+    (not a keyword in ANY letter case) -/
+theorem valid_identifier (c : Char) (m : List Char) (hc : isWordStart c = true) (hm : ∀ d ∈ m, isWordCont d = true) :
+    Word.Valid upper ⟨.Identifier, c :: m, c :: m⟩ ↔ kwTable.lookup (upper (String.ofList (c :: m))) = none := by
+  rw [valid_word_kind upper c m hc hm, eq_comm, C05.ident_iff_not_key]
+
+/-- every letter case of a keyword is a valid spelling of the keyword's kind -/
+theorem valid_keyword (c : Char) (m : List Char) (hc : isWordStart c = true) (hm : ∀ d ∈ m, isWordCont d = true)
+    (k : Kind) (h : kwTable.lookup (upper (String.ofList (c :: m))) = some k) :
+    Word.Valid upper ⟨k, c :: m, c :: m⟩ :=
+  (valid_word_kind upper c m hc hm k).mpr (by simp only [classify, h, Option.getD_some])
+
+/-- decimal literals — digits with any dots in between (`12`, `3.14`, `42.`) — are valid numbers -/
+theorem valid_decimal (c : Char) (m : List Char) (hc : isDigit09 c = true) (hm : ∀ d ∈ m, isDigit09 d = true ∨ d = '.') :
+    Word.Valid upper ⟨.NumericLiteral, c :: m, c :: m⟩ := by
+  have hd : ∀ d, isDigit09 d = true → inClass [('0', '9')] d = true := by
+    intro d h; simpa [inClass, isDigit09] using h
+  refine .num c m (inClass_mono [('0', '9')] numStartClass (by decide) c (hd c hc)) ?_
+  intro d hdm
+  rcases hm d hdm with h | rfl
+  · exact inClass_mono [('0', '9')] numContClass (by decide) d (hd d h)
+  · decide
+
 /-- **comments are not words** (the single exception among the token kinds): a `;` swallows the rest of
     the line, across the separating space — `;` and `a` rendered as `; a` come back as one token. -/
 theorem comment_is_no_word :
